@@ -46,6 +46,13 @@ CHECKS = {
   "note": "Trusted: the reference solver's reading of SMT-LIB 2.6 (dsim/refsolver.py, dsim/sexpr.py; calibrated by hand against cvc5 1.0 and z3 4.8 - reset-assertions drops declarations as in cvc5), the blueprint evaluator, the pipe model (writes <= PIPE_BUF atomic; writes after the child's own (exit) are discarded). Known finding F6 (reset_assertions keeps declared symbols) is recorded in known_findings.json and reported as KNOWN-FINDING.",
   "technique": "deterministic simulation with fault injection: simulated subprocess pipes + virtual clock, strict reference peer, seeded histories/chunking/faults, minimisation + exact replay",
  },
+ "C19": {
+  "category": "fault_enumeration",
+  "text": "The real Portfolio, _run_solver and one real SmtLibSolver per member run as tasks of a deterministic kernel (baton-passing threads, virtual clock) over simulated Queue/Pipe/Process and simulated solver binaries. The tape decides every interleaving at IPC / process-control / pipe-I/O points, queue feeder delays, exact ties and near-ties of member completion times, each member's model, and per-solve member faults (unknown, error reply, death before answering, death at start-up, stall) for any subset of members including all. Oracles: verdict = brute-force truth whenever a member can answer; model / joint values satisfy the assertions; no spurious exception; bounded liveness (deadlock or budget exhaustion with no stalled member is 'blocks forever'). Sampling, not proof.",
+  "design_ref": "DESIGN.md section 4 (C19)",
+  "note": "Trusted: kernel and IPC model (dsim/kernel.py, dsim/mp.py: synchronous terminate, fork-style descriptor inheritance, asynchronous Queue.put lost on kill), reference solver, blueprint evaluator. Children share the parent's Environment (no copy-on-write isolation). No wrong-answer fault and no winner-fails-after-answering fault: the statement promises nothing there.",
+  "technique": "deterministic simulation with fault injection: seeded scheduler over simulated processes/queues/pipes, virtual time, member crash/unknown/stall faults, minimisation + exact replay",
+ },
 }
 
 ORDER = ["C04", "C14", "C15", "C16", "C17", "C18", "C19"]
